@@ -132,6 +132,16 @@ def _inst5(rng, n_acs: int, n_zones: int) -> dict:
     ac_ids = list(range(n_acs)) if rng.random() < 0.8 else sorted(rng.sample(range(16), n_acs))
     cuts = sorted(rng.randint(0, n_zones) for _ in range(n_acs - 1)) if n_acs > 1 else []
     bounds = [0] + cuts + [n_zones]
+    ranges = [(bounds[i], bounds[i + 1] - bounds[i]) for i in range(n_acs)]
+    r = rng.random()
+    if n_acs > 1 and r < 0.3:
+        rng.shuffle(ranges)  # the AC with the lower number need not own the lower zone numbers
+    elif r < 0.4 and n_zones > 1:
+        # zones that belong to no AC: a range that starts late or ends early
+        i = rng.randrange(n_acs)
+        st, cnt = ranges[i]
+        if cnt > 1:
+            ranges[i] = (st + 1, cnt - 1) if rng.random() < 0.5 else (st, cnt - 1)
     acs = []
     for i, ac in enumerate(ac_ids):
         lo_c, lo_h = rng.randint(10, 20), rng.randint(10, 20)
@@ -142,9 +152,13 @@ def _inst5(rng, n_acs: int, n_zones: int) -> dict:
             "fans": subset(rng, wire5.FAN_BITS),
             "min_cool": lo_c, "max_cool": rng.randint(25, 35),
             "min_heat": lo_h, "max_heat": rng.randint(25, 35),
-            "start_zone": bounds[i], "zone_count": bounds[i + 1] - bounds[i],
+            "start_zone": ranges[i][0], "zone_count": ranges[i][1],
         })
     zones = [{"zone": z, "name": name(rng, 24)} for z in range(n_zones)]
+    if rng.random() < 0.2:
+        rng.shuffle(acs)  # the order of the records in the ability answer (and in status frames) is the console's business
+    if rng.random() < 0.15:
+        rng.shuffle(zones)  # ... as is the order of the names
     return {
         "gen": 5, "acs": acs, "zones": zones,
         "ac_stride": rng.choice([8, 10, 10, 10, 12, 16]),
